@@ -228,4 +228,4 @@ mod test {
 
 #[cfg(all(transparencies_stretto_verif, any(kani, test)))]
 #[path = "/verif/harness/h_bbloom.rs"]
-mod verif_harness;
+pub(crate) mod verif_harness;
